@@ -146,8 +146,9 @@ func (m *ModuleInstance) setExitCode(exitCode uint32, flag exitCodeFlag) bool {
 // Only one call will happen per module, due to external atomic guards on Closed.
 func (m *ModuleInstance) ensureResourcesClosed(ctx context.Context) (err error) {
 	if closeNotifier := m.CloseNotifier; closeNotifier != nil { // experimental
-		closeNotifier.CloseNotify(ctx, uint32(m.Closed.Load()>>32))
+		// Cleared first: the notified code may use this module again, which ends up here.
 		m.CloseNotifier = nil
+		closeNotifier.CloseNotify(ctx, uint32(m.Closed.Load()>>32))
 	}
 
 	if sysCtx := m.Sys; sysCtx != nil { // nil if from HostModuleBuilder
